@@ -197,7 +197,7 @@ class DefaultOptimizerStep(PlanStep):
         results = self._nested_optimization.run_function(variables)
         if self._nested_optimization.aborted:
             self.plan.abort()
-        if not isinstance(results, FunctionResults):
+        if results is not None and not isinstance(results, FunctionResults):
             msg = "Nested optimization must return a FunctionResults object."
             raise TypeError(msg)
         return results, self._nested_optimization.aborted
